@@ -531,7 +531,22 @@ pub fn fresh_probe_failure(l: &Ledger) -> Option<(usize, String)> {
     let g = last_gen(l);
     let chain: Vec<&Tx> = l.txs.iter().filter(|t| t.app == app && t.gen == g).collect();
     if chain.is_empty() {
-        return None; // the send was refused (capacity) or failed to encode: nothing to demand
+        // the send itself failed. A refusal for want of capacity (limit 0) is nothing to demand; but a client
+        // that has nothing outstanding, is given an ample buffer and no application attributes and still cannot
+        // form a request has been made unusable by what it received earlier
+        for st in l.steps.iter().rev() {
+            if let Call::SendRequest { app: a, .. } = &st.call {
+                if *a == app && st.gen == g {
+                    if let CallResult::Err(ErrKind::Internal(msg)) = &st.result {
+                        let cut: String = msg.chars().take(60).collect();
+                        let _ = cut;
+                        return Some((0, "request cannot be formed".to_string()));
+                    }
+                    break;
+                }
+            }
+        }
+        return None;
     }
     let last = chain.last().unwrap();
     match last.finals.first() {
